@@ -57,6 +57,33 @@ def render(hist, seed):
     return "\n".join(lines) + "\n", ncom
 
 
+def _dump_pair(task):
+    """flat and grouped result of the same script when a dump is requested as well (scratch directory, removed afterwards)"""
+    import os
+    import shutil
+    import tempfile
+    text, mode, via_file = task
+    lib = C._import_lib()
+    root = tempfile.mkdtemp(prefix="verif_c13_")
+    out = []
+    try:
+        src = os.path.join(root, "in.sql")
+        with open(src, "w") as f:
+            f.write(text)
+        for grouped in (False, True):
+            try:
+                if via_file:
+                    r = lib.parse_from_file(src, dump=True, dump_path=os.path.join(root, "o%d" % grouped), group_by_type=grouped, output_mode=mode)
+                else:
+                    r = lib.DDLParser(text).run(dump=True, dump_path=os.path.join(root, "o%d" % grouped), file_path=src, group_by_type=grouped, output_mode=mode)
+                out.append(("ok", C.jnorm(r)))
+            except BaseException as e:  # noqa
+                out.append(("exc", type(e).__name__, str(e)[:120]))
+    finally:
+        shutil.rmtree(root, ignore_errors=True)
+    return out
+
+
 def run(tier, seed):
     t0 = time.time()
     rnd = random.Random(seed)
@@ -150,6 +177,21 @@ def run(tier, seed):
                 idx = [ents.index(e) for e in v]
                 if [json.dumps(e, sort_keys=True) for e in v] != [json.dumps(e, sort_keys=True) for e in ents if e in v] or any(R.project_entity(e)["kind"].startswith("?") for e in v):
                     V.mismatch(dict(case, problem="bucket order differs from the flat order / entity of unknown kind", bucket=b))
+    # ---- the relation also holds when the same call dumps its result (the dump must not touch what is returned) ---------------------------
+    dsc = ["CREATE TABLE t1 (a int); -- c1\nCREATE SEQUENCE s1 START 1; /* c2 */\nCREATE SCHEMA sc1;\n-- c3\nCREATE TYPE ty AS ENUM ('a'); -- c4\n",
+           "CREATE TABLE t1 (a int);\nALTER TABLE t1 ADD UNIQUE (a); -- only comment\n", "CREATE DATABASE d1;\nCREATE TABLESPACE ts1; -- x\nSET q = 1;\n"]
+    dt = [(t_, m_, vf) for t_ in dsc for m_ in ("sql", "mysql", "hql") for vf in (False, True)]
+    for (t_, m_, vf), (fl, gr) in zip(dt, C.pool().map(_dump_pair, dt, 1)):
+        case = {"ddl": t_, "mode": m_, "entry": "parse_from_file(dump=True)" if vf else "run(dump=True, file_path=..)"}
+        if fl[0] != "ok" or gr[0] != "ok":
+            V.mismatch(dict(case, problem="run raised", flat=fl[:3], grouped=gr[:3]))
+            continue
+        ncmp += 1
+        fe = [e for e in fl[1] if "comments" not in e]
+        fc = [c for e in fl[1] if "comments" in e for c in e["comments"]]
+        ge = [e for b_, v_ in gr[1].items() if b_ != "comments" for e in v_]
+        if sorted(json.dumps(e, sort_keys=True) for e in fe) != sorted(json.dumps(e, sort_keys=True) for e in ge) or list(gr[1].get("comments", [])) != fc:
+            V.mismatch(dict(case, problem="with dump=True the grouped result is not the regrouping of the flat result (entities / comments)", flat=fl[1], grouped=gr[1]))
     # ---- the end-to-end composition (spec/System.tla): grouped vs flat presentation of every script of <= 3 statements
     from .. import sys_check as SY
     sc, ss, st, sn = SY.leg(V, tier, seed, "C13: <=3 statements, grouped and flat", [k for k in SY.ALL_KINDS if k not in ("go", "view")], MaxStmts=3,
